@@ -25,6 +25,24 @@ def main():
         with open(a.replay) as f:
             payload = json.load(f)
         ok = mod.replay(payload)
+        if ok and payload.get("kind") == "failing-input" and not os.environ.get("VERIF_HISTORY_REPLAY"):
+            # The recorded case holds when it is run alone in a fresh process.  It may depend on what the process had done
+            # before it (state kept across datasets or requests): repeat the run it came from — same seed, same tier,
+            # hence the same cases in the same order — without touching the replay and evidence files.
+            import subprocess
+            print("the recorded case alone holds; repeating the run it came from (seed %s, tier %s)" % (
+                payload.get("seed", 0), payload.get("tier", "quick")))
+            env = dict(os.environ, VERIF_HISTORY_REPLAY="1", VERIF_SEED=str(payload.get("seed", 0)))
+            here = os.path.dirname(os.path.dirname(os.path.abspath(__file__)))
+            p = subprocess.run([os.path.join(here, "check"), a.prop, "--tier", payload.get("tier", "quick")], env=env,
+                               stdout=subprocess.PIPE, stderr=subprocess.STDOUT, text=True)
+            for line in p.stdout.splitlines():
+                if line.startswith(("VIOLATION", "KNOWN-FINDING", "INFRASTRUCTURE")):
+                    print("  (run) " + line)
+            if p.returncode not in (0, 1):
+                print("replay: the run could not be repeated (exit %d)" % p.returncode)
+                return 2
+            ok = p.returncode == 0
         print("replay: property %s on this tree" % ("HOLDS" if ok else "FAILS"))
         return 0 if ok else 1
     ctx = common.Ctx(a.prop, a.tier, seed, level=getattr(mod, "LEVEL", "proof"))
